@@ -808,3 +808,208 @@ Proof.
   - do 3 eexists. split; reflexivity.
   - exists p, t, l. split; [|exact Ef]. destruct es; [contradiction|exact El].
 Qed.
+
+(* ================= part C: round trips ================= *)
+
+Lemma zlen_app {A} (a b : list A) : zlen (a ++ b) = zlen a + zlen b.
+Proof. unfold zlen. rewrite app_length. lia. Qed.
+Lemma zlen_cons {A} (x : A) l : zlen (x :: l) = 1 + zlen l.
+Proof. unfold zlen. cbn [length]. lia. Qed.
+Lemma zlen_nil {A} : zlen (@nil A) = 0. Proof. reflexivity. Qed.
+
+(* symbolic execution of the iterator on a buffer split as consumed ++ remaining *)
+Lemma next_byte_step pre b rest :
+  next_byte (mk_iter (pre ++ b :: rest) (zlen pre)) = Ok (b, mk_iter ((pre ++ [b]) ++ rest) (zlen (pre ++ [b]))).
+Proof.
+  unfold next_byte, ilen. cbn [ibs ioff]. unfold zlen. rewrite !app_length. cbn [length].
+  destruct (_ <? _) eqn:E1; [lia|]. destruct (Z.of_nat (length pre) <? 0) eqn:E2; [lia|].
+  rewrite Nat2Z.id, app_nth2, Nat.sub_diag by lia. cbn [nth]. rewrite <- app_assoc. cbn [app]. do 3 f_equal. lia.
+Qed.
+
+Lemma slice_mid pre a rest : slice (pre ++ a ++ rest) (zlen pre) (zlen pre + zlen a) = a.
+Proof.
+  unfold slice, zlen. replace (Z.of_nat (length pre) + Z.of_nat (length a) - Z.of_nat (length pre)) with (Z.of_nat (length a)) by lia.
+  rewrite !Nat2Z.id. rewrite skipn_app, skipn_all, Nat.sub_diag. cbn [skipn app].
+  rewrite firstn_app, Nat.sub_diag, firstn_O, app_nil_r. apply firstn_all.
+Qed.
+
+Lemma next_bytes_step pre a rest n : zlen a = n ->
+  next_bytes n (mk_iter (pre ++ a ++ rest) (zlen pre)) = Ok (a, mk_iter ((pre ++ a) ++ rest) (zlen (pre ++ a))).
+Proof.
+  intros Hn. unfold next_bytes, ilen. cbn [ibs ioff]. pose proof (zlen_nonneg a). pose proof (zlen_nonneg pre). pose proof (zlen_nonneg rest).
+  replace (Z.of_nat (length (pre ++ a ++ rest))) with (zlen pre + zlen a + zlen rest) by (unfold zlen; rewrite !app_length; lia).
+  destruct (_ <? _) eqn:E1; [lia|]. destruct (n <? 0) eqn:E2; [lia|]. destruct (zlen pre <? 0) eqn:E3; [lia|].
+  subst n. rewrite slice_mid, zlen_app, <- app_assoc. reflexivity.
+Qed.
+
+Lemma next_bytes_nocopy_step pre a rest n : zlen a = n ->
+  next_bytes_nocopy n (mk_iter (pre ++ a ++ rest) (zlen pre)) = Ok (a, mk_iter ((pre ++ a) ++ rest) (zlen (pre ++ a))).
+Proof. apply next_bytes_step. Qed.
+
+Lemma ioffset_step bs off : ioffset (mk_iter bs off) = Ok (off, mk_iter bs off).
+Proof. reflexivity. Qed.
+
+(* bytes of item lists *)
+Lemma bytes_of_items_cons_u8 x l : items_bytes_ok l -> bytes_of_items (wu8 x :: l) = (x mod 256) :: bytes_of_items l.
+Proof.
+  intros Hl. change (wu8 x :: l) with ([wu8 x] ++ l). rewrite (bytes_of_items_app _ _ 1); [|repeat constructor|exact Hl|unfold wu8; bl; reflexivity].
+  rewrite chunks_concat by (repeat constructor). unfold wu8, items_bits. cbn [flat_map item_bits]. rewrite app_nil_r, bytes_of_bits_bits_of_8. reflexivity.
+Qed.
+
+Lemma bytes_of_items_cons_bytes a l : bytes_ok a -> items_bytes_ok l -> bytes_of_items (WBytes a :: l) = a ++ bytes_of_items l.
+Proof.
+  intros Ha Hl. change (WBytes a :: l) with ([WBytes a] ++ l).
+  rewrite (bytes_of_items_app _ _ (zlen a)); [|repeat constructor; exact Ha|exact Hl|bl; reflexivity].
+  f_equal. rewrite chunks_concat by (repeat constructor; exact Ha). unfold items_bits. cbn [flat_map item_bits]. rewrite app_nil_r.
+  apply bytes_of_bits_of_bytes. exact Ha.
+Qed.
+
+Lemma bytes_of_items_nil : bytes_of_items [] = []. Proof. reflexivity. Qed.
+
+(* a group of items that fills n whole bytes: its bytes read back as its bits *)
+Lemma bytes_of_group g n : items_bytes_ok g -> bitlen g = 8 * n ->
+  zlen (bytes_of_items g) = n /\ bits_of_bytes (bytes_of_items g) = items_bits g.
+Proof. intros Hok Hb. split; [apply bytes_of_items_zlen; assumption|apply (bits_of_bytes_of_items _ n); assumption]. Qed.
+
+Lemma items_ok_cons_bits w v l : items_bytes_ok l -> items_bytes_ok (WBits w v :: l).
+Proof. intros. constructor; [exact I|assumption]. Qed.
+Lemma items_ok_cons_bool b l : items_bytes_ok l -> items_bytes_ok (WBool b :: l).
+Proof. intros. constructor; [exact I|assumption]. Qed.
+Lemma items_ok_cons_bytes a l : bytes_ok a -> items_bytes_ok l -> items_bytes_ok (WBytes a :: l).
+Proof. intros. constructor; assumption. Qed.
+Lemma items_ok_nil : items_bytes_ok []. Proof. constructor. Qed.
+Ltac iok := unfold wu8, wu16, wu32; repeat first [ apply items_ok_nil | apply items_ok_cons_bits | apply items_ok_cons_bool
+  | apply items_ok_cons_bytes; [assumption|] | apply items_bytes_ok_app ]; try assumption.
+
+Lemma bitsf_prefix2 a b l : bitsf (a :: b :: l) 4 12 = bitsf [a; b] 4 12.
+Proof. unfold bitsf, bits_of_bytes, field. cbn [flat_map bits_of app skipn firstn]. reflexivity. Qed.
+
+Lemma iloop_fuel_done {A} k e (item : IM A) bs off : e <= off ->
+  iloop_fuel (S k) e item (mk_iter bs off) = Ok ([], mk_iter bs off).
+Proof. intros H. cbn [iloop_fuel]. unfold ibind, ioffset. cbn [ioff]. destruct (off <? e) eqn:E; [lia|reflexivity]. Qed.
+
+(* ---- completeness of the TLV characterisation: whenever the entries can be walked and every body parser
+   succeeds at its own entry, parseDescriptors succeeds with exactly those results ---- *)
+
+Lemma next_two_run bs pos : 0 <= pos -> pos + 2 <= zlen bs ->
+  exists r, next_bytes_nocopy 2 (mk_iter bs pos) = Ok (r, mk_iter bs (pos + 2)) /\
+            byte_at r 0 = byte_of bs pos /\ byte_at r 1 = byte_of bs (pos + 1) /\ length r = 2%nat.
+Proof.
+  intros H0 H2. destruct (next_bytes_nocopy 2 (mk_iter bs pos)) as [[r i1]| |] eqn:E.
+  - destruct (next_two _ _ _ _ E) as (_ & _ & -> & Ha & Hb & Hc). exists r. auto.
+  - exfalso. unfold next_bytes_nocopy, next_bytes, ilen in E. cbn [ibs ioff] in E. fold (zlen bs) in E.
+    destruct (zlen bs <? pos + 2) eqn:E1; [lia|]. cbn [Z.ltb Z.compare] in E. destruct (pos <? 0) eqn:E3; [lia|discriminate].
+  - exfalso. unfold next_bytes_nocopy, next_bytes, ilen in E. cbn [ibs ioff] in E. fold (zlen bs) in E.
+    destruct (zlen bs <? pos + 2) eqn:E1; [lia|]. cbn [Z.ltb Z.compare] in E. destruct (pos <? 0) eqn:E3; [lia|discriminate].
+Qed.
+
+Lemma tlv_parse_count body bs endp pos ds fin : tlv_parse desc_hdr body bs endp pos ds fin ->
+  zlen ds <= Z.max 0 (endp - pos).
+Proof. induction 1; rewrite ?zlen_cons, ?zlen_nil; lia. Qed.
+
+Lemma descriptor_loop_complete body bs endp : body_pres body -> forall pos ds fin,
+  tlv_parse desc_hdr body bs endp pos ds fin -> forall k, (length ds < k)%nat ->
+  iloop_fuel k endp (parse_descriptor_with body) (mk_iter bs pos) = Ok (ds, mk_iter bs fin).
+Proof.
+  intros Hp. induction 1 as [pos Hge|pos ds fin Hlt H0 H2 Hz _ IH|pos d i' ds fin Hlt H0 H2 Hz Eb _ IH]; intros k Hk.
+  - destruct k; [lia|]. apply iloop_fuel_done. exact Hge.
+  - destruct k; [lia|]. cbn [iloop_fuel]. unfold ibind at 1. rewrite ioffset_step. destruct (pos <? endp) eqn:E; [|lia].
+    unfold ibind at 1. unfold parse_descriptor_with, ibind at 1.
+    destruct (next_two_run bs pos H0 H2) as (r & -> & -> & -> & _).
+    destruct (byte_of bs (pos + 1) >? 0) eqn:Eg; [lia|]. unfold iret at 1. unfold ibind at 1.
+    rewrite IH by (cbn [length] in Hk; lia). reflexivity.
+  - destruct k; [lia|]. cbn [iloop_fuel]. unfold ibind at 1. rewrite ioffset_step. destruct (pos <? endp) eqn:E; [|lia].
+    unfold ibind at 1. unfold parse_descriptor_with, ibind at 1.
+    destruct (next_two_run bs pos H0 H2) as (r & -> & -> & -> & _).
+    destruct (byte_of bs (pos + 1) >? 0) eqn:Eg; [|lia]. unfold ibind at 1. rewrite ioffset_step.
+    unfold ibind at 1. rewrite Eb. unfold ibind at 1, iseek at 1, iret at 1. cbn [ibs].
+    rewrite (Hp _ _ _ _ _ _ Eb). cbn [ibs]. unfold ibind at 1.
+    rewrite IH by (cbn [length] in Hk; lia). reflexivity.
+Qed.
+
+Theorem parse_descriptors_complete body bs pos ds fin : body_pres body -> 0 <= pos -> pos + 2 <= zlen bs ->
+  tlv_parse desc_hdr body bs (pos + 2 + loop_length_at bs pos) (pos + 2) ds fin ->
+  parse_descriptors_with body (mk_iter bs pos) = Ok (ds, mk_iter bs fin).
+Proof.
+  intros Hp H0 H2 Ht. unfold parse_descriptors_with. unfold ibind at 1.
+  destruct (next_two_run bs pos H0 H2) as (r & -> & Ea & Eb & Hr).
+  rewrite (loop_length_bits r _ _ Hr Ea Eb). fold (loop_length_at bs pos).
+  destruct (loop_length_at bs pos >? 0) eqn:Eg.
+  - unfold ibind at 1. rewrite ioffset_step. unfold iloop, ibind at 1. rewrite ioffset_step.
+    apply (descriptor_loop_complete body bs _ Hp _ _ _ Ht).
+    pose proof (tlv_parse_count _ _ _ _ _ _ Ht) as Hc. unfold zlen in Hc. lia.
+  - inversion Ht; subst; try lia. reflexivity.
+Qed.
+
+(* ---- lifting a body-level round trip to a loop that holds one descriptor ---- *)
+
+
+Lemma app_eq_len {A} (a a' b b' : list A) : length a = length a' -> a ++ b = a' ++ b' -> a = a' /\ b = b'.
+Proof.
+  revert a'. induction a as [|x a IH]; intros [|y a'] Hl H; try discriminate; [auto|].
+  cbn [app] in H. inversion H; subst. destruct (IH a' ltac:(cbn in Hl; lia) H2) as [-> ->]. auto.
+Qed.
+
+Theorem single_descriptor_loop d out rest d' :
+  enc_descriptors_with_length [d] = Ok out -> items_bytes_ok out ->
+  0 <= Descriptor_Tag d < 256 -> 0 < desc_size d < 256 ->
+  (forall pre body rest', zlen pre = 4 -> (exists bi, enc_descriptor_body d = Ok bi /\ body = bytes_of_items bi) ->
+     exists i1, parse_descriptor_body (Descriptor_Tag d) (desc_size d) (4 + desc_size d) (mk_iter (pre ++ body ++ rest') 4) = Ok (d', i1)) ->
+  parse_descriptors (new_iter (bytes_of_items out ++ rest)) =
+    Ok ([d'], mk_iter (bytes_of_items out ++ rest) (4 + desc_size d)) /\
+  zlen (bytes_of_items out) = 4 + desc_size d.
+Proof.
+  intros H Hok Htag Hsz Hbody.
+  destruct (descriptors_with_length_exact [d] out H Hok) as (hdr & bodies & Eb & Hh & HF & Hbits & Hlen).
+  { constructor; [lia|constructor]. } { unfold loop_size. cbn [sumZ fold_right]. lia. }
+  unfold loop_size in Hlen. cbn [sumZ fold_right] in Hlen.
+  inversion HF as [|? body ? bs' [Hb1 Hb2] HF' E1 E2]; subst. inversion HF'; subst. clear HF HF'.
+  cbn [loop_bytes] in Eb. rewrite app_nil_r in Eb. unfold entry_bytes in Eb.
+  (* the body is what the body writer emitted *)
+  assert (Hbi : exists bi, enc_descriptor_body d = Ok bi /\ body = bytes_of_items bi).
+  { unfold enc_descriptors_with_length in H. cbn [enc_descriptors] in H. unfold enc_descriptor in H.
+    destruct (calc_descriptor_length d =? 0) eqn:Ez; [lia|].
+    destruct (enc_descriptor_body d) as [bi| |] eqn:Ebi; cbn [res_map res_bind] in H; try discriminate.
+    exists bi. split; [reflexivity|].
+    assert (Eo : out = [WBits 4 255; WBits 12 (calc_descriptors_length [d])] ++ ([wu8 (Descriptor_Tag d); wu8 (calc_descriptor_length d)] ++ bi) ++ [])
+      by (inversion H; reflexivity).
+    rewrite app_nil_r in Eo. subst out.
+    apply items_bytes_ok_app_inv in Hok. destruct Hok as [Ho1 Ho2]. apply items_bytes_ok_app_inv in Ho2. destruct Ho2 as [Ho2 Ho3].
+    rewrite (bytes_of_items_app _ _ 2) in Eb; [|assumption|apply items_bytes_ok_app; assumption|bl; reflexivity].
+    rewrite (bytes_of_items_app _ _ 2) in Eb; [|assumption|assumption|unfold wu8; bl; reflexivity].
+    rewrite bytes_of_two_u8 in Eb.
+    assert (Hl2 : zlen (bytes_of_items [WBits 4 255; WBits 12 (calc_descriptors_length [d])]) = 2)
+      by (apply bytes_of_items_zlen; [assumption|bl; reflexivity]).
+    assert (El : length hdr = length (bytes_of_items [WBits 4 255; WBits 12 (calc_descriptors_length [d])])) by (unfold zlen in *; lia).
+    apply (app_eq_len _ _ _ _ (eq_sym El)) in Eb.
+    destruct Eb as [_ Eb]. cbn [app] in Eb. inversion Eb. reflexivity. }
+  remember (bytes_of_items out) as bytes eqn:Ebytes.
+  assert (Hh0 : exists h0 h1, hdr = [h0; h1]).
+  { destruct hdr as [|h0 [|h1 [|h2 hdr]]]; unfold zlen in Hh; cbn [length] in Hh; try lia. eauto. }
+  destruct Hh0 as (h0 & h1 & ->).
+  rewrite (Z.mod_small (Descriptor_Tag d)) in Eb by lia. rewrite (Z.mod_small (calc_descriptor_length d)) in Eb by lia.
+  split; [|lia].
+  (* the TLV walk of the encoded loop has the one entry, whose body parser succeeds by hypothesis *)
+  set (buf := bytes ++ rest).
+  assert (Ebuf : buf = h0 :: h1 :: Descriptor_Tag d :: calc_descriptor_length d :: body ++ rest).
+  { unfold buf. rewrite Eb. reflexivity. }
+  assert (Hll : bitsf [h0; h1] 4 12 = 2 + desc_size d).
+  { rewrite Hlen in Hbits. rewrite Eb in Hbits. cbn [app] in Hbits. rewrite bitsf_prefix2 in Hbits. lia. }
+  assert (Hl0 : loop_length_at buf 0 = 2 + desc_size d).
+  { rewrite <- Hll. symmetry. rewrite Ebuf. apply loop_length_bits; reflexivity. }
+  assert (Hzb : zlen buf = 4 + desc_size d + zlen rest).
+  { rewrite Ebuf. rewrite !zlen_cons, zlen_app. lia. }
+  pose proof (zlen_nonneg rest) as Hrn.
+  unfold parse_descriptors, new_iter. fold buf.
+  apply parse_descriptors_complete; [apply pres_parse_descriptor_body|lia|lia|].
+  rewrite Hl0.
+  assert (Hcd : calc_descriptor_length d = desc_size d) by lia.
+  assert (Ea : 0 + 2 + 2 + desc_size d = 4 + desc_size d) by lia.
+  destruct (Hbody [h0; h1; Descriptor_Tag d; calc_descriptor_length d] body rest eq_refl Hbi) as (i1 & Ei1).
+  assert (Et : byte_of buf (0 + 2) = Descriptor_Tag d) by (rewrite Ebuf; reflexivity).
+  assert (El : byte_of buf (0 + 2 + 1) = desc_size d) by (rewrite Ebuf; change (calc_descriptor_length d = desc_size d); lia).
+  replace (4 + desc_size d) with (0 + 2 + 2 + byte_of buf (0 + 2 + 1)) by lia.
+  eapply tlv_parse_body with (i' := i1); try lia.
+  - rewrite Et, El, Ebuf, Ea, Hcd. cbn [app] in Ei1. rewrite Hcd in Ei1. exact Ei1.
+  - apply tlv_parse_done. lia.
+Qed.
